@@ -39,7 +39,7 @@ structure CertFacts (g : Grammar) (t : Tables) (cert : Cert) : Prop where
   acts : ∀ s, s < t.nStates → ∀ x ∈ stateActs t s, actOk g t cert s x = true
   gotos : ∀ s, s < t.nStates → ∀ k, k < t.nSyms - t.nTerms →
     gotoOk g.inputs.size t cert s (t.nTerms + k) = true
-  finals : ∀ i, i < g.inputs.size → finalOk g t i = true
+  finals : ∀ i, i < g.inputs.size → finalOk g t cert i = true
 
 theorem certFacts {g : Grammar} {t : Tables} {cert : Cert} (h : certOk g t cert = true) :
     CertFacts g t cert := by
